@@ -260,7 +260,7 @@ def named_cells():
     out = []
     for kid, ktpl in NAMED_KINDS.items():
         for uid, use in NAMED_USES.items():
-            for eid, e, mut in (EXPRS if engine.tier() == "thorough" else NAMED_EXPRS):
+            for eid, e, mut in EXPRS:
                 for names in ("same-name", "different-names"):
                     n2 = "N" if names == "same-name" else "M"
                     for order in ("ill-formed-second", "ill-formed-first"):
